@@ -471,7 +471,7 @@ type Divergence struct {
 	// Problem is set when the C driver did not finish the traced history (it
 	// died: sanitizer report, signal, watchdog); the text is its stderr head.
 	Problem string
-	IText  []string // the interpreter's trace of it
+	IText   []string // the interpreter's trace of it
 }
 
 func labelOf(line string) string {
